@@ -15,8 +15,9 @@
 //! a word `A` occupies four consecutive positions; results listed first end up on top.
 //!
 //! Documented quirks that are reproduced rather than corrected: `drop` at depth 16 keeps depth 16;
-//! `swapdw` `[D,C,B,A] -> [B,A,D,C]`; `eqw` keeps both words; `ext2mul` exactly as the table says
-//! (`c1 = (a0+a1)(b0+b1)`, `c0 = a0*b0 - 2*a1*b1`); short hex big-endian, long hex little-endian.
+//! `swapdw` `[D,C,B,A] -> [B,A,D,C]`; `eqw` keeps both words; short hex big-endian, long hex
+//! little-endian. `ext2mul` is the product in the quadratic extension field (the printed formula
+//! `c1 = (a0+a1)(b0+b1)` is a documentation typo lacking `- a0*b0`; kept as `ext2_mul_as_printed`).
 //! The user docs never define the modulus `q` of the extension field used by `ext2inv`/`ext2div`;
 //! the model uses F_p[x]/(x^2 - x + 2) (the extension the `c0` formula of `ext2mul` belongs to).
 
@@ -67,6 +68,10 @@ pub fn ext2_inv(a0: u64, a1: u64) -> (u64, u64) {
     let n = fadd(fadd(fmul(a0, a0), fmul(a0, a1)), fmul(2, fmul(a1, a1)));
     let ni = finv(n);
     (fmul(fadd(a0, a1), ni), fmul(fneg(a1), ni))
+}
+/// the `ext2mul` formula exactly as printed in field_operations.md (c1 lacks `- a0*b0`): (c0, c1)
+pub fn ext2_mul_as_printed(a0: u64, a1: u64, b0: u64, b1: u64) -> (u64, u64) {
+    (fsub(fmul(a0, b0), fmul(2, fmul(a1, b1))), fmul(fadd(a0, a1), fadd(b0, b1)))
 }
 /// true product in F_p[x]/(x^2 - x + 2)
 pub fn ext2_mul_true(a0: u64, a1: u64, b0: u64, b1: u64) -> (u64, u64) {
@@ -380,6 +385,7 @@ struct ExprParser<'a> {
     i: usize,
     consts: &'a HashMap<String, u64>,
     ambiguous: bool,
+    unary: bool,
     err: Option<&'static str>,
 }
 
@@ -485,7 +491,7 @@ impl<'a> ExprParser<'a> {
             Some(b'+') | Some(b'-') => {
                 // unary sign: not mentioned in the docs
                 self.i += 1;
-                self.ambiguous = true;
+                self.unary = true;
                 self.factor()
             }
             _ => {
@@ -517,13 +523,16 @@ fn eval_const(expr: &str, consts: &HashMap<String, u64>) -> ConstVal {
         // "if it uses only decimal numbers"
         return ConstVal::Undefined("const-expr-with-hex");
     }
-    let mut p = ExprParser { s: expr.as_bytes(), i: 0, consts, ambiguous: false, err: None };
+    let mut p = ExprParser { s: expr.as_bytes(), i: 0, consts, ambiguous: false, unary: false, err: None };
     let v = p.expr();
     if p.err.is_none() && p.i != p.s.len() {
         p.err = Some("const-expr-syntax");
     }
     if let Some(e) = p.err {
         return ConstVal::Fail(e);
+    }
+    if p.unary {
+        return ConstVal::Undefined("const-expr-unary-sign");
     }
     if p.ambiguous {
         return ConstVal::Undefined("const-expr-wraps");
@@ -1054,8 +1063,10 @@ fn step_inner(st: &mut Stack, ins: &Ins) -> Step {
             let (c0, c1) = match ins.op {
                 Ext2Add => (fadd(a0, b0), fadd(a1, b1)),
                 Ext2Sub => (fsub(a0, b0), fsub(a1, b1)),
-                // exactly as the table states
-                Ext2Mul => (fsub(fmul(a0, b0), fmul(2, fmul(a1, b1))), fmul(fadd(a0, a1), fadd(b0, b1))),
+                // product in the quadratic extension field F_p[x]/(x^2 - x + 2). The table's formula
+                // for c1, `(a0 + a1) * (b0 + b1)`, is a documentation typo (it lacks `- a0 * b0`) and
+                // is recorded as doc erratum by the monitor (see `ext2_mul_as_printed`).
+                Ext2Mul => ext2_mul_true(a0, a1, b0, b1),
                 _ => {
                     if b0 == 0 && b1 == 0 {
                         return Step::Fail(FailKind::DivideByZero { imm: false });
